@@ -851,4 +851,36 @@ theorem clientId_msgRef_len (rx : Rx) (p : Bytes) (o : Opts) (hp : 240 ≤ p.len
     · omega
     · exact (PV.Props.C03Dhcp.roundtrip_needs_wf p o o ho (List.Perm.refl _) _ (PV.Lemmas.Dhcp4OptPerm.optGet_mem hc)).2.2
 
+/-! ### from `processRaw` to the message read off the bytes -/
+
+theorem decode_msgRef {now : Nat} {rx : Rx} {p : Bytes} {op : Op} (h : Dhcp4Frame.decode now rx p = .ok (some op)) :
+    240 ≤ p.length ∧ ∃ o, parseOptions p = .ok o ∧ Props.C11.msgOf op = some (msgRef rx p o) := by
+  obtain ⟨hv, _, o, t, m, ho, _, hm, hc⟩ := PV.Lemmas.ComposeDhcp.classify_server (PV.Lemmas.ComposeDhcp.decode_some h)
+  have hl := PV.Lemmas.dhcpValid_len p hv
+  rw [msgOf_ref rx p o hl] at hm
+  cases hm
+  refine ⟨hl, o, ho, ?_⟩
+  rcases hc with ⟨_, e⟩ | ⟨_, e⟩ | ⟨_, e⟩ | ⟨_, e⟩ <;> rw [e] <;> rfl
+
+theorem be4of_ip4Bytes (n : Nat) : be4of (ip4Bytes n) = n % 4294967296 := PV.Lemmas.Dhcp4Srv.be32_ip4Bytes n
+
+theorem be4of_field (p : Bytes) (k : Nat) : be4of (field p k 4) = u32 p k := by
+  unfold be4of u32
+  by_cases h : k + 4 ≤ p.length
+  · have hl := PV.Lemmas.field_length p k 4 h
+    rw [← at_of_field (L := p) (k := k) (n := 4) rfl 0 k (by omega) rfl,
+      ← at_of_field (L := p) (k := k) (n := 4) rfl 1 (k + 1) (by omega) rfl,
+      ← at_of_field (L := p) (k := k) (n := 4) rfl 2 (k + 2) (by omega) rfl,
+      ← at_of_field (L := p) (k := k) (n := 4) rfl 3 (k + 3) (by omega) rfl]
+  · -- not needed below (the payload has 240 bytes); both sides read the same bytes anyway
+    have e : ∀ i, at_ (field p k 4) i = if i < 4 then at_ p (k + i) else 0 := by
+      intro i
+      unfold at_ field
+      by_cases hi : i < 4
+      · rw [if_pos hi, List.getElem?_take_of_lt hi, List.getElem?_drop]
+      · rw [if_neg hi, List.getElem?_eq_none (by rw [List.length_take]; omega)]
+        rfl
+    rw [e 0, e 1, e 2, e 3]
+    simp
+
 end PV.Lemmas.Dhcp4Wire
